@@ -51,6 +51,7 @@ type c21env struct {
 	txObj     map[int]*types.Tx
 	reblocked map[int]bool // SaveBlock overwrote a header record that already existed
 	stored    map[int]bool
+	nSig      map[string]int
 }
 
 func c21hash(tag byte, n int) bc.Hash {
@@ -73,6 +74,15 @@ func (e *c21env) block(b int, h uint64) *c21blk {
 	blk.hdr = types.BlockHeader{Version: 1, Height: h, PreviousBlockHash: prev, Timestamp: uint64(1600000000 + b),
 		BlockCommitment: types.BlockCommitment{TransactionsMerkleRoot: root}}
 	blk.hash = blk.hdr.Hash()
+	// GetCheckpointsByHeight walks the DB in key (= hash) order and stops at the first missing
+	// header, so WHICH headers it caches depends on that order; the model orders by block code.
+	// Make the two orders coincide: the timestamp is searched until the hash starts with 16*b.
+	if b >= 1 && b <= 15 {
+		for nonce := uint64(0); blk.hash.Bytes()[0] != byte(16*b); nonce++ {
+			blk.hdr.Timestamp = uint64(1600000000+b) + 1000*nonce
+			blk.hash = blk.hdr.Hash()
+		}
+	}
 	e.blocks[b] = blk
 	e.blkCode[blk.hash] = b
 	return blk
@@ -443,7 +453,15 @@ func (e *c21env) line(l string) {
 	}
 	e.c.Op(l, res)
 	if failSig != "" {
-		e.c.Fail(failSig, failDetail) // after Op: the failure is attributed to this line
+		// after Op: the failure is attributed to this line. A recorded class is written out at
+		// most 25 times per run (all occurrences are counted in the distribution).
+		if e.nSig == nil {
+			e.nSig = map[string]int{}
+		}
+		e.nSig[failSig]++
+		if e.nSig[failSig] <= 25 {
+			e.c.Fail(failSig, failDetail)
+		}
 	}
 }
 
